@@ -26,7 +26,7 @@ def sweep_plans(base, rng, tier):
         "cut13_plane16": [65 + i for i in range(13)] + [0x10ffff, 66], "plane9x8": [0x90000] * 8, "plane1_cut14": [65 + i for i in range(14)] + [0x1f600],
         # white space of every kind in front, behind, inside, alone: a fixed-size field keeps its size
         "lead_space": [32, 97, 98], "lead_tab": [9, 97], "lead_nbsp": [0xa0, 97, 98, 99], "lead_ideographic": [0x3000, 0x3000, 26085], "trail_space": [97, 98, 32, 32],
-        "inner_space": [97, 32, 98], "all_blank": [32, 32, 32], "blank15": [32] * 15, "lead_space16": [32] + [65 + i for i in range(15)], "newline": [10, 97, 13],
+        "inner_space": [97, 32, 98], "trail_nul": [97, 98, 0], "only_nul": [0], "mid_nul": [97, 0, 98], "two_nul": [97, 0, 0], "all_blank": [32, 32, 32], "blank15": [32] * 15, "lead_space16": [32] + [65 + i for i in range(15)], "newline": [10, 97, 13],
     }
     plans = []
     k = 0
@@ -63,6 +63,12 @@ def sweep_plans(base, rng, tier):
         r["id"] = "ti-%d" % j
         r["srv"]["ti_extra"] = [[[5, 1]], [[5, 3], [6, 4]], [[9, 7]], [[5, 0]], [[10, 16], [5, 5]], [[8, 48], [9, 1]]][j % 6]
         plans.append(r)
+        if j < 6:
+            # a CHALLENGE without a timestamp (older servers) or with an empty target information: the client may give up, but
+            # whatever token it sends must be well formed
+            r2 = json.loads(json.dumps(q)); r2["id"] = "ti-nots-%d" % j
+            r2["srv"]["ti_mode"] = ["no_timestamp", "empty", "eol_only"][j % 3]
+            plans.append(r2)
     # length ladder: the MCS send-data user data of the Client Info PDU crosses every PER length boundary
     # (0x7f / 0x80 / ...) once per Client Info variant
     for ext in (False, True):
